@@ -2,8 +2,10 @@ package rules
 
 import (
 	"fmt"
+	"go/ast"
 	"go/types"
 	"sort"
+	"strings"
 
 	"verif/checker/core"
 )
@@ -122,6 +124,7 @@ func runSibShape(c *core.Ctx) []core.Obligation {
 			report("Edge=ChainEdge(ChainPosition)", "Edge(e) = ChainEdge(ChainPosition(e))", lhs, rhs, ev, edge)
 		}
 	}
+	obs = append(obs, runTwinSearch(c)...)
 	return obs
 }
 
@@ -133,3 +136,144 @@ func debugDiff(l, r *sx) string {
 }
 
 var debugSib = false
+
+// ---- twin search loops (Polygon.Edge / Polygon.ChainPosition) ----
+//
+// Polygon.Edge and Polygon.ChainPosition locate the loop that holds an edge with the same search (the
+// source says "unify this and Edge since they are mostly identical"). The normaliser keeps loops opaque,
+// so instead the two searches are compared as alpha-renamed syntax trees. Only a difference at a leaf of
+// two otherwise identical trees (an operator, a constant, a different variable or field) is reported;
+// trees of different shape are not compared (recorded as not decided).
+
+func alphaTokens(info *types.Info, nodes []ast.Node) []string {
+	var out []string
+	num := map[types.Object]int{}
+	for _, nd := range nodes {
+		ast.Inspect(nd, func(n ast.Node) bool {
+			switch x := n.(type) {
+			case nil:
+				return false
+			case *ast.Ident:
+				o := info.Uses[x]
+				if o == nil {
+					o = info.Defs[x]
+				}
+				if v, ok := o.(*types.Var); ok && !v.IsField() && v.Pkg() != nil && v.Parent() != v.Pkg().Scope() {
+					if _, seen := num[o]; !seen {
+						num[o] = len(num)
+					}
+					out = append(out, fmt.Sprintf("leaf:var#%d", num[o]))
+				} else if o != nil {
+					out = append(out, "leaf:"+o.Name())
+				} else {
+					out = append(out, "leaf:"+x.Name)
+				}
+			case *ast.BasicLit:
+				out = append(out, "leaf:"+x.Value)
+			case *ast.BinaryExpr:
+				out = append(out, "BinaryExpr", "leaf:"+x.Op.String())
+			case *ast.UnaryExpr:
+				out = append(out, "UnaryExpr", "leaf:"+x.Op.String())
+			case *ast.AssignStmt:
+				out = append(out, "AssignStmt", "leaf:"+x.Tok.String())
+			case *ast.IncDecStmt:
+				out = append(out, "IncDecStmt", "leaf:"+x.Tok.String())
+			case *ast.BranchStmt:
+				out = append(out, "BranchStmt", "leaf:"+x.Tok.String())
+			case *ast.ParenExpr:
+				// transparent
+			default:
+				out = append(out, fmt.Sprintf("%T", n))
+			}
+			return true
+		})
+		out = append(out, ";")
+	}
+	return out
+}
+
+// alphaCompare returns "same", "leaf" (with a description) or "shape".
+func alphaCompare(a, b []string) (string, string) {
+	if len(a) != len(b) {
+		return "shape", ""
+	}
+	var diffs []string
+	for i := range a {
+		if a[i] == b[i] {
+			continue
+		}
+		if strings.HasPrefix(a[i], "leaf:") && strings.HasPrefix(b[i], "leaf:") {
+			diffs = append(diffs, strings.TrimPrefix(a[i], "leaf:")+" vs "+strings.TrimPrefix(b[i], "leaf:"))
+			continue
+		}
+		return "shape", ""
+	}
+	if len(diffs) == 0 {
+		return "same", ""
+	}
+	return "leaf", strings.Join(diffs, "; ")
+}
+
+func runTwinSearch(c *core.Ctx) []core.Obligation {
+	var obs []core.Obligation
+	info := c.Pkgs["s2"].TypesInfo
+	edge, chainPos, chainEdge := c.LookupFunc("s2", "Polygon", "Edge"), c.LookupFunc("s2", "Polygon", "ChainPosition"), c.LookupFunc("s2", "Polygon", "ChainEdge")
+	if edge == nil || chainPos == nil || chainEdge == nil || c.Decl(edge) == nil || c.Decl(chainPos) == nil || c.Decl(chainEdge) == nil {
+		return append(obs, core.Ob("R-SIBSHAPE", "Polygon:twin-search:anchor", "-", "", core.Violated, "unresolved anchor: Polygon.Edge/ChainPosition/ChainEdge"))
+	}
+	split := func(fd *ast.FuncDecl) (prefix []ast.Node, ret *ast.ReturnStmt) {
+		n := len(fd.Body.List)
+		if n == 0 {
+			return nil, nil
+		}
+		ret, _ = fd.Body.List[n-1].(*ast.ReturnStmt)
+		// the parameter list comes first so that the parameters get the same numbers on both sides
+		prefix = append(prefix, fd.Recv, fd.Type.Params)
+		for _, s := range fd.Body.List[:n-1] {
+			prefix = append(prefix, s)
+		}
+		return
+	}
+	ePre, eRet := split(c.Decl(edge))
+	pPre, pRet := split(c.Decl(chainPos))
+	site := c.Pos(edge.Pos())
+	if eRet == nil || pRet == nil {
+		o := core.Ob("R-SIBSHAPE", "Polygon:search(Edge)=search(ChainPosition)", site, edge.FullName(), core.Discharged, "not decided - the functions do not end in a single return")
+		o.Trivial = true
+		return append(obs, o)
+	}
+	kind, desc := alphaCompare(alphaTokens(info, ePre), alphaTokens(info, pPre))
+	switch kind {
+	case "same":
+		obs = append(obs, core.Ob("R-SIBSHAPE", "Polygon:search(Edge)=search(ChainPosition)", site, edge.FullName(), core.Discharged,
+			"the search that maps an edge id to (loop, offset) is the same syntax tree, up to renaming, in Edge and in ChainPosition"))
+	case "leaf":
+		obs = append(obs, core.Ob("R-SIBSHAPE", "Polygon:search(Edge)=search(ChainPosition)", site, edge.FullName(), core.Violated,
+			"Edge and ChainPosition locate an edge with searches that differ only at: "+desc+" - for some edge id Edge(e) is no longer ChainEdge(ChainPosition(e))"))
+	default:
+		o := core.Ob("R-SIBSHAPE", "Polygon:search(Edge)=search(ChainPosition)", site, edge.FullName(), core.Discharged, "not decided - the two searches have different shapes and are not compared")
+		o.Trivial = true
+		obs = append(obs, o)
+	}
+	// Edge's result, written with the (loop, offset) the search found, is ChainEdge(loop, offset).
+	ceDecl := c.Decl(chainEdge)
+	if len(ceDecl.Body.List) == 1 {
+		if ceRet, ok := ceDecl.Body.List[0].(*ast.ReturnStmt); ok && len(eRet.Results) == 1 && len(ceRet.Results) == 1 {
+			// number the variables by first use inside the returned expression: receiver, loop, offset
+			k, d := alphaCompare(alphaTokens(info, []ast.Node{eRet.Results[0]}), alphaTokens(info, []ast.Node{ceRet.Results[0]}))
+			switch k {
+			case "same":
+				obs = append(obs, core.Ob("R-SIBSHAPE", "Polygon:Edge.result=ChainEdge(loop,offset)", site, edge.FullName(), core.Discharged,
+					"Edge returns, for the (loop, offset) found, the expression ChainEdge returns for (i, j)"))
+			case "leaf":
+				obs = append(obs, core.Ob("R-SIBSHAPE", "Polygon:Edge.result=ChainEdge(loop,offset)", site, edge.FullName(), core.Violated,
+					"Edge and ChainEdge build the edge differently: "+d))
+			default:
+				o := core.Ob("R-SIBSHAPE", "Polygon:Edge.result=ChainEdge(loop,offset)", site, edge.FullName(), core.Discharged, "not decided - different shapes")
+				o.Trivial = true
+				obs = append(obs, o)
+			}
+		}
+	}
+	return obs
+}
